@@ -189,7 +189,10 @@ def p1_reader_path(k, suffix):
 def p1_overflow_path(n_prefix, k):
     """unfinished readout past the 8191-octet guard (first chunk), then k free octets, a line end and clean readouts in further chunks"""
     def path(eng, ctx):
-        prefix = PC.long_unfinished_readout(n_prefix)
+        if eng.pick(2) == 0:
+            prefix = PC.long_unfinished_readout(n_prefix)
+        else:           # the readout being collected stalls in a LINE that never ends (no line feed for more than 8191 octets)
+            prefix = list(b"/LGF5E360\r\n1-0:32.7.0(233.9*V)\r\n0-0:96.13.0(") + [0x30 + (i % 10) for i in range(n_prefix)]
         fr = [sym_octet(f"x{i}") for i in range(k)]
         clean = [ref_p1.build_readout(b"/ADN9 6534", [b"1-0:1.7.0(0001.727*kW)"]), ref_p1.build_readout(b"/LGF5E360", [b"1-0:32.7.0(233.9*V)"], checksum=False),
                  ref_p1.build_readout(b"/ADN9 6534", [b"1-0:2.7.0(0000.000*kW)"])]
@@ -242,7 +245,7 @@ def scenarios(tier):
                         bounds={"families": "free | '/'+free+LF | ident+free+LF | ident+data+'!'+free+LF | '!' inside ident line | free in data and after '!' | readout+free+readout", "free_octets": k, "splittings": "every single cut"},
                         domains=("p1",), frontier=6, assumptions=A, replay_cap=60))
     for n in ((8300,) if q else (7900, 8191, 8300, 20000)):
-        out.append(Scenario(f"p1 reader: unfinished readout of ~{n} octets across the buffer guard, then 2 free octets + clean readouts", p1_overflow_path(n, 2),
+        out.append(Scenario(f"p1 reader: unfinished readout of ~{n} octets (complete lines | one line that never ends) across the buffer guard, then 2 free octets + clean readouts", p1_overflow_path(n, 2),
                             bounds={"prefix_octets": n, "free_octets": 2, "suffix": "3 clean readouts in later chunks; 2nd and 3rd must be delivered, nothing may raise"}, domains=("p1",), frontier=3, workers=4,
                             assumptions=A, replay_cap=20))
     for mode in ("payload", "message"):
